@@ -18,6 +18,19 @@ func boundaryFmt(x *apix.Exec, kind string) *apix.Fail {
 func init() {
 	hx.Registry["c06-life"] = func(tier string) []*hx.Scope { return lifeScopes("c06-life", tier, false, nil) }
 	hx.Registry["c06-nested"] = func(tier string) []*hx.Scope { return nestedScopes("c06-nested", tier, nil) }
+	// a state whose free list spans several pages (the freelist pages are part of the protected page set)
+	hx.Registry["c06-bigfree"] = func(tier string) []*hx.Scope {
+		n := 5
+		if tier == "thorough" {
+			n = 7
+		}
+		cs := []apix.Cfg{{PageSize: 1024, Freelist: "array", InitialMmapSize: 1 << 20}, {PageSize: 1024, Freelist: "hashmap", InitialMmapSize: 1 << 20}}
+		scs := mk("c06-bigfree", []string{"bigfree"}, cs, n, 1, lifeAlphabet(1, []apix.Op{op("put", P("p"), "a", "X"), op("del", P("p"), "a", "")}, nil, 3), nil)
+		for _, s := range scs {
+			s.Setup = func(x *apix.Exec) { x.EnableMonitor(true) }
+		}
+		return scs
+	}
 	hx.Registry["c10-life"] = func(tier string) []*hx.Scope {
 		scs := lifeScopes("c10-life", tier, true, nil)
 		return scs
@@ -65,7 +78,7 @@ func init() {
 // C06: the write monitor — no write modifies a page of a visible committed state.
 func C06(tier string) int {
 	return RunHX(HXCheck{
-		Prop: "C06", Level: "model_checking", Scopes: []string{"c06-life", "c06-nested"},
+		Prop: "C06", Level: "model_checking", Scopes: []string{"c06-life", "c06-bigfree", "c06-nested"},
 		Rule:        "breadth-first enumeration of all programs within the bound (writers with page-freeing bodies, readers of every age opening/closing before, between and during write transactions, rollbacks, reopen with the other freelist backend / sync setting, nested bucket delete/move); every WriteAt issued to the data file is checked at the moment it is issued against the page sets (tree, overflow, freelist pages as decoded by boltfmt when that version was committed) of the newest committed state and of every open reader's state, and against the meta-slot rule; a state is a distinct exact state key",
 		Assumptions: []string{"page sets come from the independent decoder at commit time", "a write that leaves every byte of a protected page unchanged is counted, not flagged"},
 		Quick:       100 * time.Second, Thorough: 25 * time.Minute,
